@@ -39,8 +39,44 @@ ARG_ASSERTS = {
 }
 
 
+def _dict_lookups(prog):
+    """Implicit KeyError sites: `<Class>.<attr>[key]` / `self.<attr>[key]` where the class attribute is a dict literal and the key is
+    computed (not a plain name or constant: those are arguments checked at their call sites, e.g. C13-R2 for the status strings)."""
+    sites = {}
+    n = 0
+    for f in prog.functions.values():
+        if not f.qname.startswith('nfc.clf.'):
+            continue
+        for x in walk_no_nested(f.node):
+            if not (isinstance(x, ast.Subscript) and isinstance(x.ctx, ast.Load) and isinstance(x.value, ast.Attribute)):
+                continue
+            owner = norm(x.value.value)
+            cls = f.cls if owner == 'self' else None
+            if cls is None:
+                for c in prog.classes.values():
+                    if c.module is f.module and (c.name == owner or c.qname.endswith('.' + owner)):
+                        cls = c
+            if cls is None:
+                continue
+            attr = prog.lookup(cls, x.value.attr)
+            val = attr[2] if isinstance(attr, tuple) and len(attr) > 2 else None
+            if not (isinstance(val, ast.Dict) or (isinstance(val, ast.Call) and norm(val.func) == 'dict')):
+                continue
+            n += 1
+            if isinstance(x.slice, (ast.Name, ast.Constant)):
+                continue
+            sites.setdefault(f.qname, []).append((x, 'KeyError', '%s [the table %s has no entry for every value of %s]' % (norm(x), norm(x.value), norm(x.slice))))
+    return sites, n
+
+
 def rule_escape(report, prog, res, tier):
     n_roots = 0
+    lookups, n_lookups = _dict_lookups(prog)
+    report.stats['dict_table_lookups'] = n_lookups
+    report.floor('C13-R1 table lookups', n_lookups, 3)
+
+    def implicit(func, ctx):
+        return lookups.get(func.qname, [])
     for q in DRIVERS:
         c = prog.cls(q)
         for m in ENTRIES:
@@ -48,7 +84,7 @@ def rule_escape(report, prog, res, tier):
             if not isinstance(f, FuncInfo):
                 raise AnalysisError('C13-R1: %s.%s not found' % (q, m))
             n_roots += 1
-            esc = Escape(prog, res, split_entry=True,
+            esc = Escape(prog, res, split_entry=True, implicit=implicit,
                          catalog={'binascii.unhexlify': ['binascii.Error']},
                          method_catalog=dict(USB_CATALOG, decode=['UnicodeDecodeError']) if 'udp' in q else USB_CATALOG)
             r = esc.esc(f, Ctx(c))
@@ -62,7 +98,7 @@ def rule_escape(report, prog, res, tier):
                     continue
                 if it.origin == 'catalog' and it.exc == 'UnicodeDecodeError' and "'ascii'" not in it.site_text:
                     continue
-                k = key(f.qname, 'via ' + (it.entry or '?'), it.exc, 'raised in ' + it.site_func, it.site_text)
+                k = key(f.qname, 'via ' + (it.entry or '?'), it.exc, 'raised in ' + it.site_func, it.site_text.split(' [')[0])
                 report.fail('C13-R1', k, f.loc(),
                             '%s (rooted at %s): %s raised in %s (%s) can leave the driver through `%s` -- it is neither a '
                             'CommunicationError nor IOError' % (f.qname.replace('nfc.clf.', ''), c.qname.replace('nfc.clf.', ''),
@@ -254,4 +290,9 @@ MUTANTS = [
             except CommunicationError:
                 rcvd_data = None
             recv_time = time.time() - send_time""", 'C13-R3'),
+    ('rcs380-error-text-from-partial-table', 'nfc.clf.rcs380', """                raise nfc.clf.TimeoutError
+            raise nfc.clf.TransmissionError
+        except StatusError as error:""", """                raise nfc.clf.TimeoutError
+            raise nfc.clf.TransmissionError(CommunicationError.err2str[error.errno])
+        except StatusError as error:""", 'C13-R1'),
 ]
